@@ -53,6 +53,19 @@
 (*            `type` not a string).  r0 is the result in a process without *)
 (*            history; PHistory: the result after any history is r0 and    *)
 (*            holds no value of an earlier call.                           *)
+(*   route    the event OBJECT route: an object is made from the JSON of a *)
+(*            well-formed signed PDU through one of the entry points       *)
+(*            (trusted / with-event-ID / headered / untrusted parse), then *)
+(*            RouteSteps operations are applied in any order - actions     *)
+(*            RSign / RSetUnsigned / RReadEventID / RRedact - and the      *)
+(*            object is observed after each.  History variable `route`     *)
+(*            (steps, trail of before/after objects); PRoute: every step   *)
+(*            keeps identity, signatures and core keys, Redact() is the    *)
+(*            redaction of the JSON the object has at that moment.         *)
+(*            Scenario dimensions: entry x spelling of the JSON text       *)
+(*            (canonical / members reversed + whitespace / escapes inside  *)
+(*            strings: the specification does not read it) x an event_id   *)
+(*            member in the JSON (room version 3+) x event type x shape.   *)
 (***************************************************************************)
 EXTENDS Redaction, Json, IOUtils
 
@@ -64,7 +77,10 @@ CONSTANTS Versions,     \* room versions to enumerate
           MaxHist,      \* hist: longest history enumerated
           FullOffsets,  \* offsets enumerated with the full pairwise lattice
           LiteOffsets,  \* offsets enumerated with none / singles / all only
-          AllOnlyOffsets \* offsets enumerated with the shape "all" only (every key still takes the class)
+          AllOnlyOffsets, \* offsets enumerated with the shape "all" only (every key still takes the class)
+          RouteSteps,   \* route: operations applied to the object after it was made
+          RouteFull     \* route: TRUE = every type x shape x (entry, spelling, event_id member) combination;
+                        \*        FALSE = the pruned set (see InitRoute)
 
 VersionsAll == AllVersions
 \* one version per (event format, redaction algorithm) combination
@@ -81,13 +97,18 @@ FamPdu == {"pdu"}
 FamBoth == {"raw", "pdu"}
 KindsLattice == {"lattice"}
 KindsExtra == {"vocab", "hist"}
+KindsRoute == {"route"}
+\* one version per event format of the objects (v1: event_id member and references with hashes, v10: ID lists,
+\* v12: domainless room IDs), with algorithms 1, 4, 5
+VersionsRoute == {"1", "10", "12"}
 
 VARIABLES ver, e, r1, r2, phase,
           fam,    \* family of the scenario
           kind,   \* kind of the scenario
           r0,     \* hist: the result of redacting e in a process that has done nothing else
-          hist    \* the calls the same process handled before the one under observation, oldest first
-vars == <<ver, e, r1, r2, phase, fam, kind, r0, hist>>
+          hist,   \* the calls the same process handled before the one under observation, oldest first
+          route   \* route: entry point, spelling and the trail of (operation, object after it), the entry point first
+vars == <<ver, e, r1, r2, phase, fam, kind, r0, hist, route>>
 
 Types == ProtectedTypes \cup {"other"}
 \* "other" is realised as m.room.message (std) or as a custom type with escapable characters (esc)
@@ -99,7 +120,9 @@ TopExtras == {"unsigned", "age_ts", "redacts", "foo", "depthx"}
 \* under the listed spelling
 CaseVariants == {"Origin", "Depth"}
 TopOptRaw == (TopKeepOld \ {"type", "content"}) \cup TopExtras \cup CaseVariants
-TopOptPdu == {"state_key", "prev_state", "origin", "membership"} \cup TopExtras
+\* (`event_id`: mandatory in event format 1; from room version 3 on an optional member that trusted JSON - e.g. read
+\* back from a database - may carry: it is listed, so it is kept, and it is then the event ID of the object)
+TopOptPdu == {"state_key", "prev_state", "origin", "membership", "event_id"} \cup TopExtras
 
 \* keys a parsed PDU must have
 PduMandatory(v, roomless) ==
@@ -148,6 +171,7 @@ TopClass(f, k, t, off, mand) ==
       [] f = "pdu" /\ k = "depth" -> IF off % 3 = 1 THEN "zero" ELSE "std"               \* depth 0
       [] f = "pdu" /\ k = "origin_server_ts" -> IF off % 3 = 2 THEN "zero" ELSE "std"    \* timestamp 0
       [] k \in mand -> "std"
+      [] f = "pdu" /\ k = "event_id" -> "std"                  \* typed as a string by the PDU parser
       [] f = "pdu" /\ k \in {"state_key", "redacts"} ->        \* typed as strings by the PDU parser
              IF (KeyIdx[k] + off) % 2 = 0 THEN "std" ELSE "esc"
       [] OTHER -> Free(f, KeyIdx[k] + off)
@@ -217,8 +241,9 @@ VocabDoc == IF VocabFile = "" THEN [names |-> <<>>, casevariants |-> <<>>] ELSE 
 VocabTop == VocabDoc.names
 VocabCase == VocabDoc.casevariants
 VocabCon == VocabTop \o VocabCase
-VocabSeq(pos) == CASE pos = "top" -> VocabTop [] pos = "topcase" -> VocabCase [] OTHER -> VocabCon    \* "con", "tpi"
-CS(pos) == IF pos = "topcase" THEN 1 ELSE ChunkSize
+VocabSeq(pos) == CASE pos = "top" -> VocabTop [] pos \in {"topcase", "topcaseall"} -> VocabCase
+                   [] OTHER -> VocabCon    \* "con", "tpi"
+CS(pos) == IF pos \in {"topcase", "topcaseall"} THEN 1 ELSE ChunkSize
 NChunks(pos) == (Len(VocabSeq(pos)) + CS(pos) - 1) \div CS(pos)
 ChunkIdx(pos, c) == {i \in 1..Len(VocabSeq(pos)) : (i - 1) \div CS(pos) = c - 1}
 
@@ -231,7 +256,12 @@ PduTyped == {"redacts", "sticky", "msc4354_sticky"}
 \* positions: "top" a chunk of the vocabulary as additional top-level keys (raw: on top of every listed key),
 \*            "con" a chunk as additional content keys, on top of the content keys the algorithm lists for the type,
 \*            "tpi" (m.room.member) a chunk as additional keys of content.third_party_invite, next to what is listed there,
-\*            "topcase" one case variant as an additional top-level key
+\*            "topcase" one case variant as an additional top-level key (raw: the genuine keys absent; pdu: next to
+\*            the keys a PDU must have), "topcaseall" (raw) one case variant on top of every listed key.
+\*            Case variants are ASCII case variants found in the sources and the Unicode FOLD variants of every listed
+\*            key that has an s or a k (U+017F long s, U+212A Kelvin sign: letters that are lower / upper case
+\*            already and that simple case folding - hence encoding/json - equates with s / k); they are written
+\*            <U+017F> / <U+212A> in this vocabulary and realised by the harness.
 \* In every position the names the algorithm lists there are taken out of the chunk: what is left is unlisted.
 VocabEvent(f, v, t, pos, c) ==
     LET a == RedactionAlgo(v)
@@ -242,15 +272,15 @@ VocabEvent(f, v, t, pos, c) ==
                     [] OTHER -> TopKeep(a)
         extra == {i \in ChunkIdx(pos, c) : seq[i] \notin listed}
         names == {seq[i] : i \in extra}
-        cls(k) == IF f = "pdu" /\ pos \in {"top", "topcase"} /\ k \in PduTyped THEN "std"
+        cls(k) == IF f = "pdu" /\ pos \in {"top", "topcase", "topcaseall"} /\ k \in PduTyped THEN "std"
                   ELSE Free(f, (CHOOSE i \in extra : seq[i] = k) + off)
         mand == IF f = "pdu" THEN PduMandatory(v, FALSE) ELSE {"type", "content"}
-        basek == IF f = "raw" /\ pos = "top" THEN TopKeep(a) ELSE mand
+        basek == IF f = "raw" /\ pos \in {"top", "topcaseall"} THEN TopKeep(a) ELSE mand
         conbase == CASE pos = "con" -> ContentKeep(a, t)
                      [] pos = "tpi" -> ContentKeep(a, t) \cup {NestedKey}
                      [] OTHER -> {}
     IN [type |-> t,
-        top |-> [k \in basek \cup (IF pos \in {"top", "topcase"} THEN names ELSE {}) |->
+        top |-> [k \in basek \cup (IF pos \in {"top", "topcase", "topcaseall"} THEN names ELSE {}) |->
                     IF k \in basek THEN TopClass(f, k, t, off, mand) ELSE cls(k)],
         con |-> [k \in conbase \cup (IF pos = "con" THEN names ELSE {}) |->
                     IF k \in conbase THEN ConClass(f, k, off, "other1") ELSE cls(k)],
@@ -283,6 +313,47 @@ Follows(c) == IF hist = <<>> THEN TRUE
                    /\ c.entry = "json" /\ hist[1].entry = "json"
                    /\ c.algo = hist[1].algo /\ c.ptype = hist[1].ptype /\ c.outcome # hist[1].outcome
 
+\* --- kind "route": the event object route ------------------------------------------------------------------------
+RouteEntries == {"trusted",      \* NewEventFromTrustedJSON
+                 "withid",       \* NewEventFromTrustedJSONWithEventID (told the event ID the event has)
+                 "headered",     \* ToHeaderedJSON, NewEventFromHeaderedJSON
+                 "untrusted"}    \* NewEventFromUntrustedJSON (content hash intact)
+\* spellings of the JSON text handed to the entry point (the abstract event - hence everything the specification
+\* derives - is the same): canonical; members in reverse order at every level with whitespace; strings (names and
+\* values) written with \uXXXX and \/ escapes
+RouteSpellings == {"canon", "rev", "esc"}
+NoRoute == [on |-> FALSE]
+RouteRich(t) == Pool("pdu", t) \ {<<"t", "age_ts">>, <<"t", "event_id">>}
+RouteMin(t) == IF t = "other" THEN {} ELSE {<<"t", "state_key">>}
+RouteTypes == IF RouteFull THEN {"m.room.member", "m.room.create", "m.room.power_levels", "other"}
+              ELSE {"m.room.member", "m.room.create", "other"}
+RouteShapes(t) == IF RouteFull THEN {RouteMin(t), RouteRich(t)}
+                  ELSE IF t = "m.room.member" THEN {RouteRich(t)} ELSE {RouteMin(t)}
+\* relevance: receipt refuses non-canonical text from room version 6 on and strips an event_id member (what that
+\* does to the content hash is another property's subject); in event format 1 the member is always there; the
+\* spelling matters to an event ID that is computed, not to one that is a member
+RouteCombos(v) ==
+    {c \in [entry : RouteEntries, sp : RouteSpellings, idm : BOOLEAN] :
+        /\ (c.entry = "untrusted" => c.sp = "canon" /\ ~c.idm)
+        /\ (EventFormat(v) = 1 => ~c.idm)
+        /\ (~RouteFull /\ c.idm => c.sp = "canon")}
+
+\* the object now, the operations applied so far, the JSON as it was handed to the entry point, the object before step n
+RObj == route.trail[Len(route.trail)].o
+RSteps == [i \in 1..(Len(route.trail) - 1) |-> route.trail[i + 1].act]
+RHanded == ObjOf(e, {"s1"}, FALSE)        \* (as the origin server signed it)
+RBefore(n) == IF n = 1 THEN RHanded ELSE route.trail[n - 1].o
+
+InitRoute ==
+    \E v \in Versions, t \in RouteTypes :
+    \E sh \in RouteShapes(t), c \in RouteCombos(v) :
+       LET sh2 == sh \cup (IF c.idm THEN {<<"t", "event_id">>} ELSE {})
+           ev == EventOf("pdu", v, t, sh2, 0, IF <<"c", NestedKey>> \in sh THEN "signed+other" ELSE "none")
+           o1 == IF c.entry = "untrusted" THEN ObjParseUntrusted(EventFormat(v), ev, {"s1"})
+                 ELSE ObjParseTrusted(ev, {"s1"})
+       IN /\ kind = "route" /\ fam = "pdu" /\ ver = v /\ e = ev
+          /\ route = [on |-> TRUE, entry |-> c.entry, sp |-> c.sp, trail |-> << [act |-> c.entry, o |-> o1] >>]
+
 InitLattice ==
     \E f \in Families, v \in Versions, t \in Types, off \in FullOffsets \cup LiteOffsets \cup AllOnlyOffsets :
     \E sh \in Shapes(Pool(f, t), ModeOf(off, v)) \cup ForeignShapes(t, Pool(f, t), ModeOf(off, v)) :
@@ -292,7 +363,8 @@ InitLattice ==
 
 InitVocab ==
     \E f \in Families, v \in Versions, t \in Types :
-    \E pos \in {"top", "con"} \cup (IF f = "raw" /\ t \in {"other", "m.room.create"} THEN {"topcase"} ELSE {})
+    \E pos \in {"top", "con"} \cup (IF t \in {"other", "m.room.create"} THEN {"topcase"} ELSE {})
+                              \cup (IF f = "raw" /\ t \in {"other", "m.room.create"} THEN {"topcaseall"} ELSE {})
                               \cup (IF t = "m.room.member" THEN {"tpi"} ELSE {}) :
     \E c \in 1..NChunks(pos) :
        /\ kind = "vocab" /\ fam = f /\ ver = v
@@ -305,9 +377,10 @@ InitHist ==
        /\ e = EventOf(f, v, t, sh, 0, IF <<"c", NestedKey>> \in sh THEN "signed" ELSE "none")
 
 Init ==
-    /\ \/ "lattice" \in Kinds /\ InitLattice
-       \/ "vocab" \in Kinds /\ InitVocab
-       \/ "hist" \in Kinds /\ InitHist
+    /\ \/ "lattice" \in Kinds /\ InitLattice /\ route = NoRoute
+       \/ "vocab" \in Kinds /\ InitVocab /\ route = NoRoute
+       \/ "hist" \in Kinds /\ InitHist /\ route = NoRoute
+       \/ "route" \in Kinds /\ InitRoute
     /\ r1 = e /\ r2 = e
     /\ r0 = RedactV(ver, e)      \* what redaction of e gives in a process that has done nothing else
     /\ hist = <<>>
@@ -317,31 +390,53 @@ Init ==
 EarlierAccepted ==
     /\ phase = "init" /\ kind = "hist" /\ Len(hist) < MaxHist
     /\ \E c \in AllCalls : c.outcome = "accepted" /\ Follows(c) /\ hist' = Append(hist, c)
-    /\ UNCHANGED <<ver, e, r0, r1, r2, phase, fam, kind>>
+    /\ UNCHANGED <<ver, e, r0, r1, r2, phase, fam, kind, route>>
 \* ... and one that it refused
 EarlierRefused ==
     /\ phase = "init" /\ kind = "hist" /\ Len(hist) < MaxHist
     /\ \E c \in AllCalls : c.outcome \in Refusals /\ Follows(c) /\ hist' = Append(hist, c)
-    /\ UNCHANGED <<ver, e, r0, r1, r2, phase, fam, kind>>
+    /\ UNCHANGED <<ver, e, r0, r1, r2, phase, fam, kind, route>>
 
 \* the redaction operation of room version `ver`, applied once and applied to its own result
 \* (redaction reads nothing but its argument: `hist` does not occur)
 Check ==
-    /\ phase = "init"
+    /\ phase = "init" /\ kind # "route"
     /\ (kind = "hist" => hist # <<>>)
     /\ r1' = RedactV(ver, e)
     /\ r2' = RedactV(ver, RedactV(ver, e))
     /\ phase' = "done"
-    /\ UNCHANGED <<ver, e, r0, fam, kind, hist>>
+    /\ UNCHANGED <<ver, e, r0, fam, kind, hist, route>>
 
-Next == EarlierAccepted \/ EarlierRefused \/ Check
+\* --- the operations on an event object (kind "route"), in any order ----------------------------------------------
+RouteStep(act, o2) ==
+    /\ phase = "init" /\ Len(RSteps) < RouteSteps
+    /\ route' = [route EXCEPT !.trail = Append(@, [act |-> act, o |-> o2])]
+    /\ UNCHANGED <<ver, e, r0, r1, r2, phase, fam, kind, hist>>
+\* PDU.Sign by a further key: another server's, then a second key of the sender's server, then the first key again
+NextSigner(o) == IF "s2" \notin o.sigs THEN "s2" ELSE IF "s1b" \notin o.sigs THEN "s1b" ELSE "s1"
+RSign        == kind = "route" /\ RouteStep("sign", ObjSign(RObj, NextSigner(RObj)))
+RSetUnsigned == kind = "route" /\ RouteStep("setunsigned", ObjSetUnsigned(RObj))
+RReadEventID == kind = "route" /\ RouteStep("readid", ObjReadEventID(RObj))
+RRedact      == kind = "route" /\ RouteStep("redact", ObjRedact(RedactionAlgo(ver), RObj))
+\* sequences without a Redact() say nothing about redaction: not emitted
+RFinish ==
+    /\ phase = "init" /\ kind = "route" /\ Len(RSteps) = RouteSteps
+    /\ \E i \in 1..Len(RSteps) : RSteps[i] = "redact"
+    /\ r1' = RedactV(ver, e)
+    /\ r2' = RedactV(ver, RedactV(ver, e))
+    /\ phase' = "done"
+    /\ UNCHANGED <<ver, e, r0, fam, kind, hist, route>>
+
+Next == EarlierAccepted \/ EarlierRefused \/ Check \/ RSign \/ RSetUnsigned \/ RReadEventID \/ RRedact \/ RFinish
 Spec == Init /\ [][Next]_vars
 
 Done == phase = "done"
 A == RedactionAlgo(ver)
 
 \* --- the property (stated over the history variables, independent of how Redact is written) ---------
-TypeOK == WellFormed(e) /\ WellFormed(r1) /\ WellFormed(r2)
+TypeOK == /\ WellFormed(e) /\ WellFormed(r1) /\ WellFormed(r2)
+          /\ (kind = "route") = route.on
+          /\ (kind = "route" => WellFormed(RObj.ev) /\ RObj.sigs \subseteq {"s1", "s2", "s1b"})
 
 \* exactly the listed keys, values unchanged
 PExact ==
@@ -390,6 +485,23 @@ PIdentity ==
             /\ SignedProj(A, r1) = SignedProj(A, e)          \* signatures are computed over this
             /\ ("event_id" \in DOMAIN e.top => "event_id" \in DOMAIN r1.top /\ r1.top["event_id"] = e.top["event_id"])
             /\ ("signatures" \in DOMAIN e.top => "signatures" \in DOMAIN r1.top)
+\* the object route: every operation keeps identity, signatures and core keys; Redact() is the redaction of the JSON
+\* the object has when it is called - whatever entry point made the object and whatever was done to it before
+PRoute ==
+    kind = "route" =>
+        LET tr == route.trail
+            o == RObj IN
+        /\ tr[1].act = route.entry
+        \* (the latest step: the earlier ones were the latest in the states before)
+        /\ ObjStepOK(A, tr[Len(tr)].act, RBefore(Len(tr)), o)
+        \* consequences over the whole history: the identity is the one of the JSON handed in, the origin's signature is
+        \* still there, and once redacted the object is the redaction of that JSON (plus `unsigned`, if given later)
+        /\ ObjIdentity(A, o) = IdentityProj(A, e)
+        /\ "s1" \in o.sigs
+        /\ (o.red => /\ DOMAIN o.ev.top \ {"unsigned"} = DOMAIN r0.top
+                     /\ o.ev.con = r0.con /\ o.ev.tpi = r0.tpi
+                     /\ \A k \in DOMAIN r0.top : o.ev.top[k] = r0.top[k])
+        /\ (o.red = (\E i \in 1..Len(RSteps) : RSteps[i] = "redact"))
 \* the predicates of Redaction.tla agree with the above
 PModule ==
     /\ TablesSane
@@ -407,8 +519,17 @@ PSanity ==
             /\ (~KeepAllContent(A, e.type) => DOMAIN r1.con \cap Foreign(e.type) = {})
 
 
+ObsOf(o) == [top |-> DOMAIN o.ev.top, con |-> DOMAIN o.ev.con, tpi |-> DOMAIN o.ev.tpi.keys,
+             sigs |-> o.sigs, red |-> o.red]
 Emit ==
-    Done => PrintT(ToJson([fam |-> fam, kind |-> kind, hist |-> hist, ver |-> ver, algo |-> A, type |-> e.type,
+    Done => IF kind = "route"
+            THEN PrintT(ToJson([fam |-> fam, kind |-> kind, ver |-> ver, algo |-> A, type |-> e.type,
+                                top |-> e.top, con |-> e.con, tpiobj |-> e.tpi.obj, tpi |-> e.tpi.keys,
+                                ktop |-> DOMAIN r1.top, kcon |-> DOMAIN r1.con, ktpi |-> DOMAIN r1.tpi.keys,
+                                entry |-> route.entry, sp |-> route.sp, steps |-> RSteps,
+                                \* what the object is after the entry point and after every operation
+                                exp |-> [i \in 1..Len(route.trail) |-> ObsOf(route.trail[i].o)]]))
+            ELSE PrintT(ToJson([fam |-> fam, kind |-> kind, hist |-> hist, ver |-> ver, algo |-> A, type |-> e.type,
                            top |-> e.top, con |-> e.con,
                            tpiobj |-> e.tpi.obj, tpi |-> e.tpi.keys,
                            ktop |-> DOMAIN r1.top, kcon |-> DOMAIN r1.con, ktpi |-> DOMAIN r1.tpi.keys]))
